@@ -209,7 +209,7 @@ func (s *schemaBuilder) buildFromDecl(_ *entityDecl, schema *spec.Schema) error 
 		o := tpe.Obj()
 		if o != nil {
 			debugLog("got the named type object: %s.%s | isAlias: %t | exported: %t", o.Pkg().Path(), o.Name(), o.IsAlias(), o.Exported())
-			if o.Pkg().Name() == "time" && o.Name() == "Time" {
+			if o.Pkg().Path() == "time" && o.Name() == "Time" {
 				schema.Typed("string", "date-time")
 				return nil
 			}
@@ -271,7 +271,7 @@ func (s *schemaBuilder) buildFromTextMarshal(tpe types.Type, tgt swaggerTypable)
 		debugLog("skipping because package is nil: %s", tpe.String())
 		return nil
 	}
-	if pkg.Name == "time" && tio.Name() == "Time" {
+	if pkg.PkgPath == "time" && tio.Name() == "Time" {
 		tgt.Typed("string", "date-time")
 		return nil
 	}
@@ -350,7 +350,7 @@ func (s *schemaBuilder) buildFromType(tpe types.Type, tgt swaggerTypable) error 
 			debugLog("skipping because package is nil: %s", tpe.String())
 			return nil
 		}
-		if pkg.Name == "time" && tio.Name() == "Time" {
+		if pkg.PkgPath == "time" && tio.Name() == "Time" {
 			tgt.Typed("string", "date-time")
 			return nil
 		}
